@@ -106,6 +106,18 @@ Theorem C20_check_iff_malformed :
 Proof. exact check_iff_malformed. Qed.
 Print Assumptions C20_check_iff_malformed.
 
+(* line by line, and with the number Check reports *)
+Theorem C20_error_iff_malformed :
+  forall pd ro ai l, no_nl l -> (parse_line pd ro ai l = IError <-> malformed pd ro ai l).
+Proof. exact error_iff_malformed. Qed.
+Print Assumptions C20_error_iff_malformed.
+
+Theorem C20_check_counts_error_lines :
+  forall pd ro ai ls,
+    check_count (parse_file pd ro ai ls) = count_true (fun l => is_error (parse_line pd ro ai l)) ls.
+Proof. exact check_count_is_malformed_count. Qed.
+Print Assumptions C20_check_counts_error_lines.
+
 (* ---- whole files (LoadFile / ParseByLine): ls are the newline-ended lines (LF, or CRLF: the \r is
         then the last byte of the line and is dropped), last is the text after the final newline.
         One item per physical line, ParseLine of that line, in order - the unterminated last
@@ -116,16 +128,32 @@ Theorem C20_file_lines :
 Proof. exact raw_lines_unlines. Qed.
 Print Assumptions C20_file_lines.
 
-Theorem C20_load_text_items :
+(* FULL STATEMENT ("every line of a play file parses ... to exactly one of ..."), for any text:
+       forall pd ro ai ls last, (forall l, In l ls -> no_nl l) -> no_nl last ->
+         load_text pd ro ai (unlines ls ++ last) =
+           (map (fun l => parse_line pd ro ai (drop_cr l)) (phys ls last), false)
+   It is FALSE of the faithful model (C20_every_line_one_item_refuted below): a physical line of
+   65536 bytes or more makes bufio.Scanner stop with ErrTooLong; that line and the lines after it
+   give no item, LoadFile returns the error and `relay file` refuses the file.  Proved here under
+   exactly the guard that excludes it: every physical line is shorter than 65536 bytes. *)
+Theorem C20_load_text_items_partial :
   forall pd ro ai ls last,
     (forall l, In l ls -> no_nl l) -> no_nl last ->
     (forall l, In l (phys ls last) -> (lenN l < max_token)%N) ->
     load_text pd ro ai (unlines ls ++ last) =
       (map (fun l => parse_line pd ro ai (drop_cr l)) (phys ls last), false).
 Proof. exact load_text_items. Qed.
-Print Assumptions C20_load_text_items.
+Print Assumptions C20_load_text_items_partial.
 
-(* a line of 64 KiB or more is not parsed: the load fails (and the file is refused) *)
+(* the witness: a file that is one line of 65536 '=' has one physical line, gives no item, and
+   the load fails; replayed on the real LoadFile in every run (text corpus of the harness) *)
+Theorem C20_every_line_one_item_refuted :
+  forall pd ro ai, exists text,
+    List.length (raw_lines text) = 1%nat /\ load_text pd ro ai text = ([], true).
+Proof. intros pd ro ai. exists (rep 65536 "="). exact (long_line_refused pd ro ai). Qed.
+Print Assumptions C20_every_line_one_item_refuted.
+
+(* what exactly happens then: the items of the lines before it, and the load fails *)
 Theorem C20_load_text_too_long :
   forall pd ro ai ls last a l b,
     (forall x, In x ls -> no_nl x) -> no_nl last -> phys ls last = (a ++ l :: b)%list ->
@@ -174,6 +202,57 @@ Theorem C20_readd_in_force_same_verdict :
     accept_in_force p acts -> pass mt (ffinal (acts ++ [Accept p])%list) line = pass mt (ffinal acts) line.
 Proof. exact readd_in_force_same_verdict. Qed.
 Print Assumptions C20_readd_in_force_same_verdict.
+
+(* ---- the log channel is bounded and its consumer may stop reading: FilterLines then blocks on
+        its send, and nothing is lost.  For EVERY capacity, EVERY schedule of filter and consumer
+        moves and EVERY history: delivered ++ waiting in the channel ++ still owed by the rule is
+        exactly what the rule lets through (none lost, none duplicated, order kept) ---- *)
+Theorem C20_stalled_consumer_loses_nothing :
+  forall mt cap sched evs,
+    let p := prun mt cap (pinit evs) sched in
+    (deliv p ++ pbuf p ++ frun mt (pf p) (pend p) = frun mt fnew evs)%list.
+Proof. exact pipe_loses_nothing. Qed.
+Print Assumptions C20_stalled_consumer_loses_nothing.
+
+(* once every event is handled and the channel drained, exactly the permitted lines have arrived *)
+Theorem C20_stalled_consumer_exact :
+  forall mt cap sched evs,
+    pdone (prun mt cap (pinit evs) sched) = true ->
+    deliv (prun mt cap (pinit evs) sched) = frun mt fnew evs.
+Proof. exact pipe_finished_exact. Qed.
+Print Assumptions C20_stalled_consumer_exact.
+
+(* at any moment - e.g. when the context is cancelled - what has arrived is a prefix of them *)
+Theorem C20_delivered_is_prefix :
+  forall mt cap sched evs,
+    exists rest, (frun mt fnew evs = deliv (prun mt cap (pinit evs) sched) ++ rest)%list.
+Proof. exact pipe_delivered_is_prefix. Qed.
+Print Assumptions C20_delivered_is_prefix.
+
+(* the pipeline is never stuck while something is left, and a schedule that keeps moving finishes *)
+Theorem C20_pipe_progress :
+  forall mt cap p, pdone p = false -> exists a q, pstep mt cap p a = Some q.
+Proof. exact pipe_progress. Qed.
+Print Assumptions C20_pipe_progress.
+
+Theorem C20_pipe_completes : forall mt cap p, exists sched, pdone (prun mt cap p sched) = true.
+Proof. exact pipe_completes. Qed.
+Print Assumptions C20_pipe_completes.
+
+(* non-vacuity: capacity 1, the consumer does not read: the second permitted line blocks the
+   filter (its move is refused), the consumer's read releases it, all three lines arrive *)
+Example C20_pipe_witness :
+  let evs := [Line "a"; Line "b"; Act (Deny "x"); Line "c"] in
+  let mt := fun (_ _ : string) => false in
+  let blocked := prun mt 1 (pinit evs) [StepFilter] in
+  pstep mt 1 blocked StepFilter = None /\ pstep mt 1 blocked StepRendezvous = None /\
+  pbuf (prun mt 1 (pinit evs) [StepFilter; StepFilter; StepFilter]) = ["a"] /\
+  pdone (prun mt 1 (pinit evs) [StepFilter; StepFilter; StepConsumer; StepFilter; StepConsumer; StepFilter;
+                               StepFilter; StepConsumer]) = true /\
+  deliv (prun mt 1 (pinit evs) [StepFilter; StepFilter; StepConsumer; StepFilter; StepConsumer; StepFilter;
+                               StepFilter; StepConsumer]) = ["a"; "b"] /\
+  frun mt fnew evs = ["a"; "b"].
+Proof. vm_compute. repeat split. Qed.
 
 (* ---- non-vacuity: concrete oracles, the lines of the README and the three former witnesses ---- *)
 Definition ex_pd (s : string) : option Z :=
